@@ -544,21 +544,31 @@ fn process_request_obj(request: &Request, dbs: &Arc<Databases>, client: &mut Cli
             request_str,
             opp_id,
         } => {
-            log::debug!("ack send_message_to_secoundary {} {}", opp_id, request_str);
-            match client
-                .sender
-                .clone()
-                .try_send(format!("ack {} {} \n", opp_id, dbs.external_tcp_address))
-            {
-                Ok(_) => (),
-                Err(e) => log::warn!("Request::ReplicateRequest ack sender.send Error: {}", e),
-            }
-            match process_request(&request_str, &dbs, client) {
-                Response::Error { msg } => {
-                    log::warn!("Error to process message {}, error: {}", opp_id, msg);
-                    Response::Error { msg }
+            if request_str.starts_with("rp ") {
+                // No node wraps a replicated request into another one, and every level is one
+                // more handler frame on the stack: a long enough line would exhaust it
+                Response::Error {
+                    msg: "rp cannot carry another rp".to_string(),
                 }
-                r => r,
+            } else {
+                log::debug!("ack send_message_to_secoundary {} {}", opp_id, request_str);
+                match client
+                    .sender
+                    .clone()
+                    .try_send(format!("ack {} {} \n", opp_id, dbs.external_tcp_address))
+                {
+                    Ok(_) => (),
+                    Err(e) => {
+                        log::warn!("Request::ReplicateRequest ack sender.send Error: {}", e)
+                    }
+                }
+                match process_request(&request_str, &dbs, client) {
+                    Response::Error { msg } => {
+                        log::warn!("Error to process message {}, error: {}", opp_id, msg);
+                        Response::Error { msg }
+                    }
+                    r => r,
+                }
             }
         }
         /*
